@@ -70,9 +70,15 @@ def apply(root, spec):
         n.pop()
         return root, note
     if op == "set_this":
+        if "this" not in n.arg_types:
+            return root, note + ":skip"
         n.set("this", _new(spec))
         return root, note
     if op == "set_expression":
+        if "expression" not in n.arg_types:
+            # an argument the node class does not have is outside the domain (constructors such as TimeUnit normalise their
+            # unit and would drop it, so 'rebuilt through the public constructors' is not defined for such a tree)
+            return root, note + ":skip"
         n.set("expression", _new(spec))
         return root, note
     if op == "set_none":
